@@ -106,9 +106,11 @@ Print Assumptions C18_space_point_err.
 (* continuity: the change between two lookups is bounded by the tabulated change over any knot interval
    [time_i, time_j] containing both times — within one segment by one tabulated step, across a knot by the sum
    of the two steps.  This reduces the "0.5 mm per 8 ns" claim to a fact about the table.
-   Full statement wanted by the property (NOT proved; it needs a quantitative rounding-error analysis):
+   The sharper statement wanted by the property,
      |t2 - t1| <= knot spacing -> |r1 - r2| <= max (not sum) of the tabulated steps of the <= 2 segments touched
-     (+ a few ulps). *)
+     (+ an explicit rounding term),
+   is proved further down (C18_knot_straddle, C18_half_mm_straddle_8ns); this theorem remains the only bound for two
+   lookups that touch three segments. *)
 Theorem C18_step_bound_partial : forall m ts z s i j t1 t2 r1 c1 r2 c2,
   tables_ok fmt64 ts -> is_slice ts z s -> (i <= j)%nat -> (j < length (fst s))%nat ->
   rk_time (knot_at s i) <= t1 -> t1 <= t2 -> t2 <= rk_time (knot_at s j) ->
